@@ -20,7 +20,7 @@ func genOpts(r *mon.Rand, cfg mon.Config) gspec.GenOpts {
 		Cycles: 0.45, Branches: 0.6, Multi: 0.4, StreamCond: 0.3, AllowEmpty: 0.3,
 		Nest: cfg.Pick(2, 3), NestProb: 0.12, State: 0.25, StreamState: 0.3,
 		Streamy: r.Prob(0.5), Keys: 0.25, Renames: 0.12, Passthrough: 0.12, Collide: 0.02, Wide: 0.2,
-		MaxStepsProb: 0.25, CtrlOnly: 0.2, DataOnly: 0.3, Fields: 0.4,
+		MaxStepsProb: 0.25, CtrlOnly: 0.2, DataOnly: 0.3, Fields: 0.4, TwoBranches: 0.3,
 	}
 	return o
 }
@@ -149,8 +149,16 @@ func orOK(s string) string {
 
 func oneRun(ctx context.Context, rep *mon.Reporter, spec *gspec.GraphSpec, r compose.Runnable[gspec.V, gspec.V], in gspec.V, ref *gspec.RefResult, para string, opts []compose.Option, sub string) {
 	ctl := gspec.NewCtl("r")
-	out := gspec.Call(gspec.WithCtl(ctx, ctl), r, para, in, 0, -1, opts...)
+	out, wres, dump := gspec.CallGuarded(gspec.WithCtl(ctx, ctl), r, para, in, 0, -1, opts...)
 	rep.AddEvaluations(1)
+	if wres == mon.Stuck {
+		where, detail := gspec.StuckSignature(dump)
+		rep.Violation(ID+"/"+sub+"/hang/"+where, "the run can never finish: every goroutine of the process is parked\n"+detail, map[string]any{"spec": spec, "input": in})
+		return
+	} else if wres == mon.Inconclusive {
+		rep.Inconclusive("wall-clock watchdog fired while goroutines were still active")
+		return
+	}
 	execs, _, _, _ := ctl.Log.Snapshot()
 	rep.Count("runs_"+para, 1)
 	rep.Count("body_executions_observed", int64(len(execs)))
